@@ -508,6 +508,17 @@ func (e rfEngine) Exec(ci interface{}, st *Stats) (*Violation, interface{}, bool
 				return fail("error_position_depends_on_fileset", "", rc, "error %d position %+v without a FileSet, %+v in a FileSet", i, ref.errs[i].Position, pe.Position)
 			}
 		}
+		if withFS.errStr == "" && withFS.prog != nil && withFS.prog.File != nil && len(withFS.prog.Body) > 0 {
+			// an index inside this file must resolve to this file, not to a neighbour
+			i0 := withFS.prog.Idx0()
+			if f := fs.File(i0); f == nil || f.Base() != withFS.prog.File.Base() {
+				got := "no file"
+				if f != nil {
+					got = fmt.Sprintf("the file with base %d", f.Base())
+				}
+				return fail("fileset_lookup_wrong_file", "", rc, "index %d (first node of the file with base %d) resolves through FileSet.File to %s", i0, withFS.prog.File.Base(), got)
+			}
+		}
 		if withFS.errStr == "" && withFS.prog != nil && withFS.prog.File != nil {
 			if cl, key, d := checkTreeBase(withFS.prog, n, withFS.prog.File.Base()); cl != "" {
 				rc.Kind = "tree"
@@ -803,6 +814,9 @@ var invalidAnywhere = []string{
 	"new;", "x=;", ");", "}", "]", "throw\n1;", "var a=;", "a?b;", "a?b:;", "this=1;", "for(1 in o);", "({a:1,,b:2});", "x=\"\\u12\";", "x='\\x1';",
 	"if(1)else;", "x=a+;", "x=typeof;", "var x,;", "x={a};", "x={a:};", "x=[1 2];", "label:label:x;", "x=a..b;", "x=.;", "tru\\u0065=0;", "var \\u0069f;",
 	"x=\"abc\n\";", "x=1e;", "x=0x;",
+	"x=1e3in{};", "x=.5E-2instanceof Object;", "x=0e0in[];", "x=3in[];", "x=01a;", "x=0x3in[];", "x=1.5a;", "x=1.e;",
+	"a:{continue a;}", "a:switch(1){case 1:continue a;}", "for(;;){(function(){continue;})()}", "while(1){(function(){break;})()}",
+	"b:{(function(){b:{}break b;})()}", "x=function(){return}return;",
 }
 
 // incomplete constructs: only at the very end of a text
@@ -838,6 +852,10 @@ func (rfEngine) Gen(t *rapid.T, tier string) interface{} {
 		b.WriteString("\n")
 	}
 	c.Text = b.String()
+	if rapid.IntRange(0, 5).Draw(t, "inlinemap?") == 5 {
+		// a bundle that ends in an inline source map comment: truncations land inside it
+		c.Text += "\n//# sourceMappingURL=data:application/json;base64,eyJ2ZXJzaW9uIjozLCJzb3VyY2VzIjpbXSwibmFtZXMiOltdLCJtYXBwaW5ncyI6IiJ9"
+	}
 	maxLen := 1500
 	if tier == "thorough" {
 		maxLen = 4000
